@@ -405,6 +405,10 @@ fn hit(s: &Slot, dur: u8, k: &[u64; KW]) -> bool {
 
 #[cfg(not(feature = "getmux"))]
 pub fn st_has(dur: u8, key: &[u64; KW]) -> bool {
+    #[cfg(feature = "lazyfam")]
+    if let Some(i) = lazy_index(dur, key) {
+        return i < lazy().n;
+    }
     let w = world();
     let seq = w.seq;
     let mut i = 0;
@@ -432,6 +436,10 @@ pub fn st_get<V: Flat>(dur: u8, key: &[u64; KW]) -> Option<V> {
 }
 #[cfg(not(feature = "getmux"))]
 pub fn st_set(dur: u8, key: &[u64; KW], val: &[u64; VW]) {
+    #[cfg(feature = "lazyfam")]
+    if lazy_index(dur, key).is_some() {
+        overflow() // writes to a lazy family are outside what it models
+    }
     let w = world();
     let seq = w.seq;
     let fresh = match dur {
@@ -480,6 +488,13 @@ pub fn st_remove(dur: u8, key: &[u64; KW]) {
 pub fn st_extend_ttl(dur: u8, key: &[u64; KW], threshold: u32, extend_to: u32) {
     if threshold > extend_to {
         trap_storage()
+    }
+    #[cfg(feature = "lazyfam")]
+    if let Some(i) = lazy_index(dur, key) {
+        if i >= lazy().n {
+            trap_storage()
+        }
+        return;
     }
     let w = world();
     let seq = w.seq;
@@ -899,6 +914,10 @@ pub fn hash_oracle(kind: u8, len: u32, inp: &[u64; HW]) -> [u64; 4] {
 // updated once under its own guard.
 #[cfg(feature = "getmux")]
 pub fn st_has(dur: u8, key: &[u64; KW]) -> bool {
+    #[cfg(feature = "lazyfam")]
+    if let Some(i) = lazy_index(dur, key) {
+        return i < lazy().n;
+    }
     let w = world();
     let seq = w.seq;
     let mut found = false;
@@ -916,6 +935,10 @@ pub fn st_has(dur: u8, key: &[u64; KW]) -> bool {
 }
 #[cfg(feature = "getmux")]
 pub fn st_set(dur: u8, key: &[u64; KW], val: &[u64; VW]) {
+    #[cfg(feature = "lazyfam")]
+    if lazy_index(dur, key).is_some() {
+        overflow() // writes to a lazy family are outside what it models
+    }
     let w = world();
     let seq = w.seq;
     let fresh = match dur {
@@ -968,6 +991,13 @@ pub fn st_extend_ttl(dur: u8, key: &[u64; KW], threshold: u32, extend_to: u32) {
     if threshold > extend_to {
         trap_storage()
     }
+    #[cfg(feature = "lazyfam")]
+    if let Some(i) = lazy_index(dur, key) {
+        if i >= lazy().n {
+            trap_storage()
+        }
+        return;
+    }
     let w = world();
     let seq = w.seq;
     let max_ext = w.max_ttl.saturating_sub(1);
@@ -1000,4 +1030,109 @@ pub fn st_extend_ttl(dur: u8, key: &[u64; KW], threshold: u32, extend_to: u32) {
     if !found {
         trap_storage()
     }
+}
+
+
+// ---------------------------------------------------------------- lazy monotone family (feature `lazyfam`)
+/// An indexed family of stored entries of UNBOUNDED length (a checkpoint timeline with `n` up to u32::MAX): entry `i`
+/// gets an arbitrary value the first time it is read and keeps it (every later read of the same index is assumed
+/// equal); the FIRST value word is a tagged u32 that strictly increases with the index and never exceeds `bound`
+/// (for checkpoints: the ledger, <= current sequence) — the representation invariant of a timeline of any length.
+/// At most `NL` reads are recorded (a binary search over u32 makes at most 34). Reads of indices >= n find nothing.
+/// No function pointers, no value-dependent positions: one pass over the concrete record array per read.
+#[cfg(feature = "lazyfam")]
+pub const NL: usize = 38;
+#[cfg(feature = "lazyfam")]
+#[derive(Clone, Copy)]
+pub struct LazyRec {
+    pub idx: u32,
+    pub key: u32,
+    pub w1: u64,
+    pub w2: u64,
+}
+#[cfg(feature = "lazyfam")]
+pub struct LazyFam {
+    pub on: bool,
+    pub dur: u8,
+    /// first key word (the variant symbol) and the position of the index word inside the key
+    pub k0: u64,
+    pub idx_pos: usize,
+    pub n: u32,
+    pub bound: u32,
+    pub len: u32,
+    pub last_idx: u32,
+    pub recs: [LazyRec; NL],
+}
+#[cfg(feature = "lazyfam")]
+static mut LAZY: LazyFam = LazyFam {
+    on: false,
+    dur: 0,
+    k0: 0,
+    idx_pos: 1,
+    n: 0,
+    bound: u32::MAX,
+    len: 0,
+    last_idx: 0,
+    recs: [LazyRec { idx: 0, key: 0, w1: 0, w2: 0 }; NL],
+};
+#[cfg(feature = "lazyfam")]
+pub fn lazy() -> &'static mut LazyFam {
+    unsafe { &mut LAZY }
+}
+/// is `key` an entry of the lazy family? -> its index
+#[cfg(feature = "lazyfam")]
+pub fn lazy_index(dur: u8, key: &[u64; KW]) -> Option<u32> {
+    let l = lazy();
+    if !l.on || l.dur != dur || key[0] != l.k0 {
+        return None;
+    }
+    let mut w = 0u64;
+    let mut i = 0;
+    while i < KW {
+        if i == l.idx_pos {
+            w = key[i];
+        }
+        i += 1;
+    }
+    Some(untag_u32(w))
+}
+/// value words of entry `idx`; None beyond the family's length
+#[cfg(feature = "lazyfam")]
+pub fn lazy_read(idx: u32) -> Option<[u64; VW]> {
+    let l = lazy();
+    if idx >= l.n {
+        return None;
+    }
+    l.last_idx = idx;
+    if l.len as usize >= NL {
+        overflow()
+    }
+    let key = arb_u64() as u32;
+    let w1 = arb_u64();
+    let w2 = arb_u64();
+    assume(key <= l.bound);
+    let mut i = 0;
+    while i < NL {
+        if (i as u32) < l.len {
+            let r = l.recs[i];
+            let ok = if r.idx == idx {
+                r.key == key && r.w1 == w1 && r.w2 == w2
+            } else if r.idx < idx {
+                r.key < key
+            } else {
+                key < r.key
+            };
+            assume(ok);
+        }
+        if i as u32 == l.len {
+            l.recs[i] = LazyRec { idx, key, w1, w2 };
+        }
+        i += 1;
+    }
+    l.len += 1;
+    let mut val = [0u64; VW];
+    val[0] = tag_u32(key);
+    val[1] = w1;
+    val[2] = w2;
+    Some(val)
 }
